@@ -1,9 +1,14 @@
 """C20 - sandbox operator interception sees every intercepted operator application.
 
-Spec: spec/SandboxOps.tla (semantics of arithmetic expressions under a set of
-intercepted operators: OpHook / NativeOp per executed application, hook result
-= native + 1000, no compile-time evaluation), spec/SandboxGate.tla (OpHook /
-NativeOp actions, invariant C20_AllAndOnlyIntercepted on the state machine).
+Spec: spec/SandboxOpsSem.tla (semantics of arithmetic expressions under the
+operator configuration of an environment: intercepted sets + callback tables;
+an executed application goes through the hook iff its operator is intercepted
+and then yields what the environment's callback returns; no compile-time
+evaluation), spec/SandboxOps.tla (every case x intercepted set, hook result =
+native + 1000), spec/SandboxOpsEnvs.tla (several environments: new / install /
+icept / render steps, callback tables are per environment), spec/SandboxGate.tla
+(OpHook / NativeOp actions, invariant C20_AllAndOnlyIntercepted on the state
+machine).
 
 Binding (spec -> code): the harness generates arithmetic-heavy expressions
 (constants, variables, nesting, conditional / and / or) in several template
@@ -12,13 +17,18 @@ per call, loop filter evaluated per item); TLC evaluates every (case, subset
 of intercepted operators) and prints the expected hook log, values and status;
 the real template is rendered in a SandboxedEnvironment subclass whose
 call_binop / call_unop log (op, operands) and return super() + 1000, and hook
-log + rendered text are compared with TLC's.
+log + rendered text are compared with TLC's.  Scenarios over several plain
+SandboxedEnvironment instances (created, given callbacks through
+env.binop_table / env.unop_table, re-configured and rendering in generated
+orders) are walked by TLC (SandboxOpsEnvs) and replayed step by step.
 """
 from __future__ import annotations
 
 import itertools
 import json
+import operator
 import random
+import threading
 from concurrent.futures import ProcessPoolExecutor
 
 from .. import core
@@ -202,11 +212,12 @@ def render_batch(job):
     return out
 
 
-def compare(case, exp, got):
+def compare(case, exp, got, want_log=None):
     """Project TLC's expectation to the observable form and compare."""
     cid, is_async, src, outcome, text, log = got
-    want_log = [{"op": a["op"], "u": a["u"], "l": [a["l"]["n"], a["l"]["f"]], "r": [a["r"]["n"], a["r"]["f"]]}
-                for a in exp["log"]]
+    if want_log is None:
+        want_log = [{"op": a["op"], "u": a["u"], "l": [a["l"]["n"], a["l"]["f"]], "r": [a["r"]["n"], a["r"]["f"]]}
+                    for a in exp["log"]]
     problems = []
     if log != want_log:
         problems.append("hook log")
@@ -227,6 +238,229 @@ def compare(case, exp, got):
     return problems, want_log, want
 
 
+# ---------------------------------------------------------------------------
+# several environments, callbacks installed through binop_table / unop_table
+# ---------------------------------------------------------------------------
+
+NATIVE_B = {"+": operator.add, "-": operator.sub, "*": operator.mul, "/": operator.truediv,
+            "//": operator.floordiv, "%": operator.mod, "**": operator.pow}
+NATIVE_U = {"+": operator.pos, "-": operator.neg}
+MAX_ENVS = 3
+
+
+def ops_of(e, acc=None):
+    acc = set() if acc is None else acc
+    if e["t"] in ("b", "u"):
+        acc.add((e["op"], e["t"] == "u"))
+    for v in e.values():
+        if isinstance(v, dict):
+            ops_of(v, acc)
+    return acc
+
+
+def step(t, e, b=(), u=(), op="", un=False, tag=0, c=0, is_async=False):
+    return {"t": t, "e": e, "b": list(b), "u": list(u), "op": op, "un": un, "tag": tag, "c": c, "async": is_async}
+
+
+def gen_scenarios(tier, seed, cases):
+    """Sequences of new / install / icept / render steps over 2-3 environments.  The operators
+    that are intercepted and given callbacks are drawn (mostly) from those of the rendered
+    expressions, so that the callbacks matter; callback numbers are unique per scenario, so
+    that the log tells whose callback ran."""
+    rnd = random.Random(seed + 3)
+    n = 150 if tier == "quick" else 1500
+    pool = [k for k, c in enumerate(cases, 1) if 1 <= count_ops(c["e"]) <= 4]
+    out = []
+    for _ in range(n):
+        nenv = rnd.choice([2, 2, 3])
+        picked = [rnd.choice(pool) for _ in range(rnd.choice([1, 2, 2]))]
+        used = sorted(set().union(*(ops_of(cases[k - 1]["e"]) for k in picked)))
+
+        def some_sets():
+            b = {op for op, un in used if not un and rnd.random() < 0.75}
+            u = {op for op, un in used if un and rnd.random() < 0.75}
+            if rnd.random() < 0.3:
+                b.add(rnd.choice(BIN))
+            if rnd.random() < 0.2:
+                u.add(rnd.choice(UN))
+            return sorted(b), sorted(u)
+
+        steps, live, tag = [], [], 0
+        length = rnd.randint(5, 10)
+        while len(steps) < length:
+            r = rnd.random()
+            if len(live) < nenv and (not live or r < 0.3):
+                e = len(live) + 1
+                live.append(e)
+                b, u = some_sets()
+                steps.append(step("new", e, b, u, is_async=rnd.random() < 0.15))
+            elif r < 0.6 and tag < 4:
+                op, un = rnd.choice(used) if rnd.random() < 0.85 else (rnd.choice(BIN), False)
+                if rnd.random() < 0.15:
+                    k = 0                      # the builtin operator is put back
+                else:
+                    tag += 1
+                    k = tag
+                steps.append(step("install", rnd.choice(live), op=op, un=un, tag=k))
+            elif r < 0.68:
+                b, u = some_sets()
+                steps.append(step("icept", rnd.choice(live), b, u))
+            else:
+                steps.append(step("render", rnd.choice(live), c=rnd.choice(picked)))
+        # what every environment does after all of this
+        order = list(live)
+        rnd.shuffle(order)
+        steps += [step("render", e, c=rnd.choice(picked)) for e in order]
+        out.append(steps)
+    return out
+
+
+def scenario_tlc(ck_like, tier, cases, scenarios, name="envs"):
+    d = core.workdir(PID, f"{name}_in")
+    f = d / "scenarios.json"
+    f.write_text(json.dumps({"cases": [{k: c[k] for k in ("id", "w", "e", "vars", "items")} for c in cases],
+                             "scenarios": scenarios, "nenv": MAX_ENVS}))
+    r = core.run_tlc(PID, "SandboxOpsEnvs",
+                     "SPECIFICATION Spec\nINVARIANT C20_AllAndOnlyIntercepted\nINVARIANT C20_ResultIsOwnHooks\n"
+                     "INVARIANT C20_FreshEnvironmentHasBuiltins\nPROPERTY C20_StepsAreLocal\n",
+                     env={"SCEN_FILE": str(f)}, name=name, timeout=3000, workers=4, coverage=tier == "quick")
+    ck_like.add_tlc(r, f"SandboxOpsEnvs: {len(scenarios)} scenarios over up to {MAX_ENVS} environments")
+    expected = {}
+    for line in set(r.printed()):
+        j = json.loads(line)
+        expected[(j["scn"], j["pc"])] = j
+    want = sum(1 for sc in scenarios for st in sc if st["t"] == "render")
+    if len(expected) != want:
+        raise core.MachineryError(f"SandboxOpsEnvs printed {len(expected)} results for {want} render steps")
+    return r, expected
+
+
+def replay_scenarios(job):
+    """Perform the steps of scenarios on real environments; returns per render step what happened."""
+    core.use_repo()
+    from jinja2.sandbox import SandboxedEnvironment
+
+    cases, items = job
+    log = []
+
+    class Env(SandboxedEnvironment):      # the hook only logs: what it returns is what the tables give
+        jv_id = 0
+
+        def call_binop(self, context, operator, left, right):
+            log.append({"k": "call", "e": self.jv_id, "op": operator, "u": False, "l": encv(left), "r": encv(right)})
+            return super().call_binop(context, operator, left, right)
+
+        def call_unop(self, context, operator, arg):
+            log.append({"k": "call", "e": self.jv_id, "op": operator, "u": True, "l": encv(arg), "r": encv(arg)})
+            return super().call_unop(context, operator, arg)
+
+    def callback(tag, op, un):
+        fn = (NATIVE_U if un else NATIVE_B)[op]
+
+        def cb(*args):
+            log.append({"k": "cb", "tag": tag, "op": op, "u": un, "l": encv(args[0]), "r": encv(args[-1])})
+            return fn(*args) + 1000 * tag
+        return cb
+
+    out = []
+    for sno, steps, skip in items:
+        envs = {}
+        for pc, st in enumerate(steps, 1):
+            t = st["t"]
+            if t == "new":
+                env = envs[st["e"]] = Env(enable_async=st["async"])
+                env.jv_id = st["e"]
+            env = envs[st["e"]]
+            if t in ("new", "icept"):
+                env.intercepted_binops = frozenset(st["b"])
+                env.intercepted_unops = frozenset(st["u"])
+            elif t == "install":
+                table = env.unop_table if st["un"] else env.binop_table
+                table[st["op"]] = callback(st["tag"], st["op"], st["un"]) if st["tag"] else \
+                    (NATIVE_U if st["un"] else NATIVE_B)[st["op"]]
+            elif t == "render" and pc not in skip:
+                case = cases[st["c"] - 1]
+                del log[:]
+                ctx = dict(case["vars"])
+                ctx.pop("i", None)
+                ctx["items"] = list(case["items"])
+                ctx["ident"] = lambda v=None: v
+                src = template_of(case)
+                outcome, text = su.render(env, src, ctx, env.is_async)
+                out.append((sno, pc, (case["id"], env.is_async, src, outcome, text, list(log))))
+    return out
+
+
+def scenario_want_log(exp, e):
+    """TLC's applications that go through the hook -> the events the harness logs: the hook of the
+    rendering environment, then (unless the builtin operator is in the table) the callback."""
+    want = []
+    for a in exp["log"]:
+        lr = {"op": a["op"], "u": a["u"], "l": [a["l"]["n"], a["l"]["f"]], "r": [a["r"]["n"], a["r"]["f"]]}
+        want.append(dict(lr, k="call", e=e))
+        if a["tag"]:
+            want.append(dict(lr, k="cb", tag=a["tag"]))
+    return want
+
+
+def describe(steps, upto):
+    out = []
+    for st in steps[:upto]:
+        if st["t"] in ("new", "icept"):
+            out.append(f"{st['t']}(env{st['e']}, binops {st['b']}, unops {st['u']})")
+        elif st["t"] == "install":
+            out.append(f"env{st['e']}.{'unop' if st['un'] else 'binop'}_table[{st['op']!r}] = "
+                       + (f"callback{st['tag']}" if st["tag"] else "builtin"))
+        else:
+            out.append(f"render(env{st['e']}, case {st['c']})")
+    return "; ".join(out)
+
+
+def check_scenarios(ck, cases, scenarios, expected, require_hooks=True):
+    items = []
+    for sno, steps in enumerate(scenarios, 1):
+        skip = [pc for pc, st in enumerate(steps, 1)
+                if st["t"] == "render" and expected[(sno, pc)]["st"] == "skip"]
+        items.append((sno, steps, skip))
+    if len(items) > 400:
+        with ProcessPoolExecutor(max_workers=12) as ex:
+            results = [x for part in ex.map(replay_scenarios, [(cases, ch) for ch in core.chunks(items, 50)]) for x in part]
+    else:
+        results = replay_scenarios((cases, items))
+    n = hooks = 0
+    for sno, pc, got in results:
+        steps = scenarios[sno - 1]
+        st, exp = steps[pc - 1], expected[(sno, pc)]
+        case = cases[st["c"] - 1]
+        n += 1
+        hooks += len(got[5])
+        want_log = scenario_want_log(exp, st["e"])
+        problems, _, want = compare(case, exp, got, want_log)
+        if problems:
+            foreign = [a for a in got[5] if a not in want_log]
+            ck.violation({"kind": "envs", "steps": steps, "pc": pc,
+                          "cases": {str(s["c"]): cases[s["c"] - 1] for s in steps if s["c"]},
+                          "expected": {"log": want_log, "result": want},
+                          "actual": {"log": got[5], "outcome": got[3], "text": got[4]}},
+                         f"several environments: after {describe(steps, pc - 1)}: env{st['e']} renders `{got[2]}` with "
+                         f"{case['vars']} items {case['items']}: {' and '.join(problems)} differ; expected hook / callback "
+                         f"events {[(a['k'], a.get('tag', a.get('e')), a['op'], a['l'][0], a['r'][0]) for a in want_log]} "
+                         f"result {want!r}, got "
+                         f"{[(a['k'], a.get('tag', a.get('e')), a['op'], a['l'][0], a['r'][0]) for a in got[5]]} "
+                         f"{got[3]} {got[4]!r}",
+                         {"kind": "operator-interception-environments", "what": problems[0],
+                          "foreign_callback": any(a["k"] == "cb" for a in foreign)})
+        elif n % 211 == 1:
+            ck.sample({"steps": describe(steps, pc), "template": got[2], "events": got[5], "text": got[4]})
+    if require_hooks and not hooks:
+        raise core.MachineryError("scenarios: no hook / callback event was recorded at all")
+    ck.traces += n
+    ck.evaluations += n
+    ck.extra["environment_scenarios"] = len(scenarios)
+    ck.extra["scenario_renders_compared"] = n
+    ck.extra["scenario_hook_and_callback_events_compared"] = hooks
+
+
 def design_model(ck):
     quick = ck.tier == "quick"
     confs = [su.conf_tla("sandbox", "abstract", "default", ic) for ic in ([], ["+"], ["+", "-", "u-"])]
@@ -242,6 +476,10 @@ def run(ck):
     bg = su.Background(design_model, ck)      # TLC on the design model runs while the engine is exercised
     cases = gen_cases(ck.tier, ck.seed)
     subsets = gen_subsets(ck.tier, ck.seed)
+    scenarios = gen_scenarios(ck.tier, ck.seed, cases)
+    # TLC walks the scenarios while the single-environment cases are evaluated and rendered
+    bg2 = su.Background(lambda rec: rec.extra.update(
+        _scen=scenario_tlc(rec, ck.tier, cases, scenarios)), ck)
     d = core.workdir(PID, "cases_in")
     f = d / "cases.json"
     f.write_text(json.dumps({"cases": [{k: c[k] for k in ("id", "w", "e", "vars", "items")} for c in cases],
@@ -312,6 +550,11 @@ def run(ck):
     ck.extra["hook_calls_compared"] = hooks
     ck.extra["expected_status"] = status
     ck.extra["cases_outside_value_space_skipped"] = skipped
+    bg2.join()
+    r2, expected2 = ck.extra.pop("_scen")
+    if ck.tier == "quick":
+        su.require_cov(ck, r2, ["New", "Install", "Icept", "Render"])
+    check_scenarios(ck, cases, scenarios, expected2)
     bg.join()
     ck.exhaustive = False
     ck.extra["exhaustive_note"] = ("seeded random expressions (<= 6 operators) plus fixed constant-only expressions; "
@@ -328,6 +571,14 @@ def run(ck):
 def replay(ck, rec):
     su.load_own_findings(ck, PID)
     c = rec["case"]
+    if c.get("kind") == "envs":
+        idxs = sorted(int(k) for k in c["cases"])
+        renum = {old: new for new, old in enumerate(idxs, 1)}
+        cases = [c["cases"][str(o)] for o in idxs]
+        steps = [dict(st, c=renum.get(st["c"], 0)) for st in c["steps"]]
+        _, expected = scenario_tlc(ck, "replay", cases, [steps], name="replay_envs")
+        check_scenarios(ck, cases, [steps], expected, require_hooks=False)
+        return
     case, sub = c["case"], c["subset"]
     d = core.workdir(PID, "replay_in")
     f = d / "cases.json"
